@@ -135,7 +135,12 @@ def load_linter_config(
         config = load_linter_config(context, "srp", SRPConfig)
     """
     metadata = get_metadata(context)
-    config_dict = metadata.get(config_key, {})
+    config_dict = metadata.get(config_key)
+    if config_dict is None:
+        # Section names are accepted with hyphens or underscores (config keys are
+        # normalized to underscores on load, callers may pass either spelling)
+        alternate = config_key.replace("-", "_") if "-" in config_key else config_key.replace("_", "-")
+        config_dict = metadata.get(alternate, {})
 
     if not isinstance(config_dict, dict):
         return config_class()
